@@ -411,6 +411,9 @@ func NewRouterEnv(spec string) (*RouterEnv, error) {
 	if parts["T"] == "1" {
 		kinds = append(kinds, TlsListenerKinds...)
 	}
+	if parts["Q"] == "1" {
+		cfg.Log.Queries = true // every query is logged: the readable form of every query name is built
+	}
 	if parts["W"] == "1" {
 		// "udpmr": a UDP listener on the wildcard address with udp.multi_routes (replies must leave from the address the
 		// query was sent to: IP_PKTINFO); queried at 127.0.0.2 / 127.0.0.3 with connected sockets
@@ -431,6 +434,12 @@ func NewRouterEnv(spec string) (*RouterEnv, error) {
 		}
 		if k == "http" || k == "fasthttp" || k == "https" {
 			sc.Http.ClientAddrHeader = "X-Verif-Client"
+			if parts["H"] == "1" {
+				sc.Http.Path = "/dns-query" // requests for any other path: 404
+			}
+		}
+		if k == "udp" && parts["D"] != "" {
+			sc.Udp.Threads, _ = strconv.Atoi(parts["D"])
 		}
 		if k == "tls" || k == "https" || k == "quic" {
 			sc.Tls.DebugUseTempCert = true
@@ -480,6 +489,11 @@ func (e *RouterEnv) Close() {
 // (waiting `grace` after the first one for duplicates), or an error class.
 // client: textual client address for the DoH header (ignored elsewhere; "-" = none).
 func (e *RouterEnv) Query(l string, wire []byte, client string, timeout, grace time.Duration) (resps [][]byte, status string) {
+	// "<listener>@<path>": a DoH request for another URL path than /dns-query
+	urlPath := "/dns-query"
+	if i := strings.IndexByte(l, '@'); i >= 0 {
+		urlPath, l = l[i+1:], l[:i]
+	}
 	port := e.Ports[strings.TrimSuffix(strings.TrimSuffix(l, "-get"), "-post")]
 	switch {
 	case l == "udp" || l == "udpmr":
@@ -543,10 +557,10 @@ func (e *RouterEnv) Query(l string, wire []byte, client string, timeout, grace t
 		}
 		return resps, "ok"
 	default: // http-get http-post fasthttp-get fasthttp-post
-		base := fmt.Sprintf("http://127.0.0.1:%d/dns-query", port)
+		base := fmt.Sprintf("http://127.0.0.1:%d%s", port, urlPath)
 		tr := &http.Transport{DisableKeepAlives: true}
 		if strings.HasPrefix(l, "https") {
-			base = fmt.Sprintf("https://127.0.0.1:%d/dns-query", port)
+			base = fmt.Sprintf("https://127.0.0.1:%d%s", port, urlPath)
 			tr = &http.Transport{DisableKeepAlives: true, ForceAttemptHTTP2: true, TLSClientConfig: &tls.Config{InsecureSkipVerify: true}}
 		}
 		var req *http.Request
